@@ -383,6 +383,13 @@ class C15(Prop):
                 if pol.startswith("fixed") and name not in ("long-ed", "long-get_dir1", "long-rename", "long-cp"):
                     continue
                 mk("%s-%s" % (name, pol[:12]), [pl(pol)] + (lines if pol in ("allow", "echo") else lines[::2]))
+        # the same object, the same path, first read then written (an approval must not be remembered across calls)
+        mk("seq-read-then-write", ["policy ro", "fx read_file [/d/f.txt]", "fx write_file [/d/f.txt]", "fx file_size [/d/sub]",
+                                   "fx mkdir [/d/sub]", "fx rmdir [/d/sub]", "fx read_file [/d/f.txt]", "fx rm [/d/f.txt]",
+                                   "fx get_dir [/d/sub]", "fx rename [/d/sub] [/d/sub]", "policy ropath=[/d/f.txt]",
+                                   "fx read_bytes [/d/f.txt]", "fx write_bytes [/d/f.txt]", "fx cp [/d/f.txt] [/d/f.txt]",
+                                   "fx restore_object [/d/f.txt.o]", "fx save_object [/d/f.txt.o]", "policy allow",
+                                   "fx read_file [/d/f.txt]", "policy deny", "fx read_file [/d/f.txt]", "fx write_file [/d/f.txt]"])
         mk("include", ["inc %s %s" % (br(b), br(n)) for b in INC_BASES for n in INC_NAMES])
         for i, n in enumerate(INH_NAMES):
             mk("inherit-%d" % i, ["inh [t/y.c] " + br(n)])
